@@ -3,6 +3,7 @@ Path management: decisions, feasibility, assumptions, obligations, allocation, c
 """
 from __future__ import annotations
 
+import os
 import time
 from typing import Any, Dict, List, Optional, Tuple
 
@@ -32,9 +33,11 @@ class PathMgr:
             for c in m.classes.values():
                 self._register_class_rec(c)
         self._stable_static = self._next_static
+        self._mro_cache: Dict[int, set] = {}
         # per-verification-task
         self.pending: List[List[int]] = []
         self.stats = dict(paths=0, branches=0, feas_checks=0, solver_s=0.0, obligations=0)
+        self.site_counts: Dict[str, int] = {}
         self.obligations: List[Obligation] = []
         self.current_func = ''
         self.reset_path([])
@@ -102,6 +105,8 @@ class PathMgr:
         self.pc_axiom: List[bool] = []
         self.alloc_cls: Dict[int, ClassInfo] = {}
         self.bounded: set = set()
+        self.lazy_branching = False
+        self.model_cache: List[Any] = []
         self.eq_static: Dict[int, Any] = {}
         self.callable_candidates: List[Any] = []
         self.old_terms: set = set()
@@ -123,8 +128,11 @@ class PathMgr:
         self.global_cache: Dict[Any, Any] = {}
         self.writes: List[Tuple[str, Any, str]] = []   # (field, ref id term, where)
         self.solver = z3.Solver()
-        self.solver.set('timeout', 5000)
+        self.solver.set('timeout', 600)
         self._solver_bg = 0
+        self._bg_n = 0
+        self._bg_set: set = set()
+        self._bg_facts: List[Any] = []
         self._bg_done: set = set()
         self.log: List[str] = []
         self.oracle_events: List[Any] = []
@@ -141,15 +149,27 @@ class PathMgr:
                 self.classes_used.add(b.cid)
 
     def background(self) -> List[Any]:
-        """ground facts of the subclass relation for the classes touched on this path"""
-        facts = []
-        used = sorted(self.classes_used)
-        for a in used:
-            ca = self.static_objs[a]
-            mro_ids = {b.cid for b in ca.mro()}
-            for b in used:
-                facts.append(smt.sub(a, b) if b in mro_ids else z3.Not(smt.sub(a, b)))
-        return facts
+        """ground facts of the subclass relation for the classes touched on this path (cached, grown
+        incrementally as classes are touched)"""
+        used = self.classes_used
+        if len(used) != self._bg_n:
+            new = [c for c in used if c not in self._bg_set]
+            for a in new:
+                self._bg_set.add(a)
+            allc = sorted(self._bg_set)
+            for a in allc:
+                mro_a = self._mro_ids(a)
+                for b in (allc if a in new else new):
+                    self._bg_facts.append(smt.sub(a, b) if b in mro_a else z3.Not(smt.sub(a, b)))
+            self._bg_n = len(used)
+        return self._bg_facts
+
+    def _mro_ids(self, cid: int):
+        m = self._mro_cache.get(cid)
+        if m is None:
+            m = {b.cid for b in self.static_objs[cid].mro()}
+            self._mro_cache[cid] = m
+        return m
 
     def sub_term(self, cid_term, K: ClassInfo):
         """z3 Bool: class id term is a subclass of K"""
@@ -168,34 +188,78 @@ class PathMgr:
 
     # ------------------------------------------------------------------ solver plumbing
     def _sync_solver(self) -> z3.Solver:
-        """incremental per-path solver: pc conjuncts are added as they arise (see _add_pc);
-        subclass facts are flushed for classes touched since the last call"""
+        """incremental per-path solver: pc conjuncts are asserted once as they arise (_add_pc); subclass
+        facts are flushed for classes touched since the last call"""
         s = self.solver
-        used = sorted(self.classes_used)
-        if len(used) != self._solver_bg:
-            done = self._bg_done
-            for a in used:
-                ca = self.static_objs[a]
-                mro_ids = {b.cid for b in ca.mro()}
-                for b in used:
-                    if (a, b) in done:
-                        continue
-                    done.add((a, b))
-                    s.add(smt.sub(a, b) if b in mro_ids else z3.Not(smt.sub(a, b)))
-            self._solver_bg = len(used)
+        bg = self.background()
+        if len(bg) > self._solver_bg:
+            s.add(*bg[self._solver_bg:])
+            self._solver_bg = len(bg)
         return s
 
     def feasible(self, extra=None) -> bool:
+        # model cache: a recent model of the pc that also satisfies `extra` proves feasibility without a
+        # solver call ("infeasible" is only ever concluded by the solver)
+        if extra is not None:
+            for m in self.model_cache:
+                try:
+                    if z3.is_true(m.eval(extra, model_completion=True)):
+                        self.stats['model_hits'] = self.stats.get('model_hits', 0) + 1
+                        return True
+                except z3.Z3Exception:
+                    pass
+        elif self.model_cache:
+            return True
         self.stats['feas_checks'] += 1
+        if os.environ.get('PYVC_SITES'):
+            import traceback
+            fr = [f'{f.name}:{f.lineno}' for f in traceback.extract_stack(limit=9)[:-1]]
+            key = ' < '.join(reversed(fr[-6:]))
+            self.site_counts[key] = self.site_counts.get(key, 0) + 1
         t = time.time()
         s = self._sync_solver()
         if extra is not None:
             s.push()
             s.add(extra)
+        if os.environ.get('PYVC_DUMP'):
+            with open(os.environ['PYVC_DUMP'], 'w') as fh:
+                fh.write(s.to_smt2())
         r = s.check()
+        mdl = None
+        if r == z3.sat:
+            mdl = s.model()
         if extra is not None:
             s.pop()
-        self.stats['solver_s'] += time.time() - t
+        if r == z3.unknown:
+            # z3's incremental core gives up on queries its one-shot pipeline decides quickly
+            s2 = z3.Solver()
+            s2.set('timeout', 8000)
+            s2.add(*self.background())
+            s2.add(*self.pc)
+            if extra is not None:
+                s2.add(extra)
+            r = s2.check()
+            self.stats['fresh_fallbacks'] = self.stats.get('fresh_fallbacks', 0) + 1
+            if r == z3.sat:
+                mdl = s2.model()
+        if mdl is not None:
+            self.model_cache.append(mdl)
+            if len(self.model_cache) > 6:
+                self.model_cache.pop(0)
+        dt = time.time() - t
+        self.stats['solver_s'] += dt
+        if dt > 2.0:
+            self.stats['slow_checks'] = self.stats.get('slow_checks', 0) + 1
+            if os.environ.get('PYVC_SLOWDUMP'):
+                s2 = z3.Solver()
+                s2.add(*self.background()); s2.add(*self.pc)
+                if extra is not None:
+                    s2.add(extra)
+                n = self.stats['slow_checks']
+                with open(f"{os.environ['PYVC_SLOWDUMP']}.{n}.smt2", 'w') as fh:
+                    fh.write(s2.to_smt2())
+            if os.environ.get('PYVC_DEBUG'):
+                print(f'SLOW feasibility check {dt:.1f}s result={r} extra={str(extra)[:300]}', flush=True)
         return r != z3.unsat
 
     def implied(self, cond) -> bool:
@@ -205,12 +269,26 @@ class PathMgr:
             return True
         if z3.is_false(c):
             return False
+        for m in self.model_cache:
+            try:
+                if z3.is_false(m.eval(c, model_completion=True)):
+                    self.stats['model_hits'] = self.stats.get('model_hits', 0) + 1
+                    return False
+            except z3.Z3Exception:
+                pass
         self.stats['feas_checks'] += 1
         t = time.time()
         s = self._sync_solver()
         s.push()
         s.add(z3.Not(c))
         r = s.check()
+        if r == z3.sat:
+            try:
+                self.model_cache.append(s.model())
+                if len(self.model_cache) > 6:
+                    self.model_cache.pop(0)
+            except z3.Z3Exception:
+                pass
         s.pop()
         self.stats['solver_s'] += time.time() - t
         return r == z3.unsat
@@ -228,7 +306,12 @@ class PathMgr:
         if self.pos < len(self.decisions):
             d = self.decisions[self.pos]
         else:
-            feas = [i for i in live if self.feasible(gs[i])]
+            if False and self.lazy_branching and len(live) == 2:
+                # inside a merged (pure) clause: both sides are explored without asking the solver; an
+                # infeasible side only contributes an unsatisfiable disjunct to the merged formula
+                feas = live
+            else:
+                feas = [i for i in live if self.feasible(gs[i])]
             if not feas:
                 raise Infeasible()
             d = feas[0]
@@ -255,6 +338,15 @@ class PathMgr:
         self.pc.append(c)
         self.pc_axiom.append(axiom)
         self.solver.add(c)
+        if self.model_cache:
+            keep = []
+            for m in self.model_cache:
+                try:
+                    if z3.is_true(m.eval(c, model_completion=True)):
+                        keep.append(m)
+                except z3.Z3Exception:
+                    pass
+            self.model_cache = keep
         self._learn(c)
 
     def _add_axiom(self, c) -> None:
@@ -286,6 +378,7 @@ class PathMgr:
                 dec = sub_pending.pop()
                 self.decisions, self.pos, self.pending = list(dec), 0, sub_pending
                 self.solver.push()
+                bg_mark = self._solver_bg
                 try:
                     try:
                         v = thunk()
@@ -299,6 +392,7 @@ class PathMgr:
                 finally:
                     new_ax = [c for c, ax in zip(self.pc[base:], self.pc_axiom[base:]) if ax]
                     self.solver.pop()
+                    self._solver_bg = bg_mark
                     del self.pc[base:]
                     del self.pc_axiom[base:]
                     # axioms are valid on every path: keep them for the sibling sub-paths and the caller
@@ -319,7 +413,6 @@ class PathMgr:
                         saved_st = keep_st
                     self.st.restore(saved_st)
                     self.known_cls, self.hint_cls = dict(saved[3]), dict(saved[4])
-                    self._solver_bg, self._bg_done = saved[5], set(saved[6])
                     self.depth, self.exc_stack = saved[10], list(saved[11])
                     del self.writes[saved[12]:]
         finally:
@@ -327,16 +420,21 @@ class PathMgr:
             self.decisions, self.pos, self.pending = saved[0], saved[1], saved[2]
         return results
 
-    def merged_truth(self, thunk, what: str = ''):
+    def merged_truth(self, thunk, what: str = '', assuming=None):
         """z3 Bool: thunk() (a pure clause) evaluates to a truthy value; a raising sub-path makes the
         clause ill-defined -> Unsupported"""
         from .core import Unsupported
-        rs = self.sub_explore(thunk, pure=True)
+        lb = self.lazy_branching
+        self.lazy_branching = True
+        try:
+            rs = self.sub_explore(thunk, pure=True)
+        finally:
+            self.lazy_branching = lb
         disj = []
         for guard, kind, v, _ in rs:
             if kind == 'raise':
                 c = self.class_of(v)
-                if self.feasible(guard):
+                if self.feasible(guard if assuming is None else z3.And(guard, assuming)):
                     raise Unsupported(f'clause {what} can raise {c.name if c else "?"}')
                 continue
             disj.append(z3.And(guard, v))
